@@ -376,6 +376,16 @@ pub fn eval_ro<P: PType, VA: 'static, VB: 'static>(
     }
 }
 
+/// C13: a mutable traversal yields the same prefixes, in the same order, as its read-only twin
+fn cmp_mut_ro(out: &mut Vec<Viol>, site: &str, qa: GK, qb: GK, mu: &[GK], ro: &[GK]) {
+    if mu == ro {
+        return;
+    }
+    let n = |v: &[GK]| -> Vec<GK> { v.iter().map(|k| norm(*k)).collect() };
+    let cond = if n(mu) == n(ro) { "prefix-differs-from-read-only-traversal" } else { "yield-sequence-differs-from-read-only-traversal" };
+    out.push(Viol::new("C13", site, cond, format!("roots {:x?} / {:x?}: the mutable traversal yields {:x?}, the read-only one {:x?}", qa, qb, mu, ro)));
+}
+
 /// Evaluate all eight set operations for one pair of views. `am`/`bm` are private mutable clones
 /// of the two states whose current contents are `sa`/`sb` (updated by the writes performed here).
 #[allow(clippy::too_many_arguments)]
@@ -432,18 +442,14 @@ pub fn eval_root_pair<P: PType, A: Side<P>, B: Side<P>>(
         };
         let mut held: Vec<(GK, GK, Option<&mut A::V>, Option<&mut B::V>)> = vam.union_mut(vbm).take(lim).map(|(p, l, r)| (norm(p.raw()), p.raw(), l, r)).collect();
         let got: Vec<(GK, Option<u32>, Option<u32>)> = held.iter().map(|(k, _, l, r)| (*k, l.as_deref().map(A::val), r.as_deref().map(B::val))).collect();
+        cmp_mut_ro(&mut out, "TrieViewMut::union_mut", qa, qb, &held.iter().map(|x| x.1).collect::<Vec<_>>(), &ro_union);
         if got != union_seq {
             let presence = |v: &[(GK, Option<u32>, Option<u32>)]| -> Vec<(GK, bool, bool)> { v.iter().map(|x| (x.0, x.1.is_some(), x.2.is_some())).collect() };
             let prop = if presence(&got) == presence(&union_seq) { "C13" } else { "C05" };
             out.push(Viol::new(prop, "TrieViewMut::union_mut", "yield-sequence", format!("roots {:x?} | {:x?}: union_mut yields {:x?}, union yields {:x?}", qa, qb, got, union_seq)));
         } else {
             // the mutable traversal yields the same prefixes as the read-only one, representation included
-            {
-                let mu: Vec<GK> = held.iter().map(|x| x.1).collect();
-                if ro_union != mu {
-                    out.push(Viol::new("C13", "TrieViewMut::union_mut", "prefix-differs-from-read-only-traversal", format!("roots {:x?} | {:x?}: union_mut yields prefixes {:x?}, union yields {:x?}", qa, qb, mu, ro_union)));
-                }
-            }
+
             for ((_, raw, l, r), e) in held.iter().zip(exp.iter()) {
                 let ok = match (l.is_some(), r.is_some()) {
                     (true, false) => Some(*raw) == e.l.map(|o| (o.0, o.1)),
@@ -493,9 +499,7 @@ pub fn eval_root_pair<P: PType, A: Side<P>, B: Side<P>>(
                 (norm(p.raw()), l, r)
             })
             .collect();
-        if raws != ro_inter && raws.iter().map(|k| norm(*k)).collect::<Vec<_>>() == ro_inter.iter().map(|k| norm(*k)).collect::<Vec<_>>() {
-            out.push(Viol::new("C13", "TrieViewMut::intersection_mut", "prefix-differs-from-read-only-traversal", format!("roots {:x?} & {:x?}: intersection_mut yields prefixes {:x?}, intersection yields {:x?}", qa, qb, raws, ro_inter)));
-        }
+        cmp_mut_ro(&mut out, "TrieViewMut::intersection_mut", qa, qb, &raws, &ro_inter);
         let got: Vec<(GK, u32, u32)> = held.iter().map(|(k, l, r)| (*k, A::val(l), B::val(r))).collect();
         if got != want {
             let keys = |v: &[(GK, u32, u32)]| -> Vec<GK> { v.iter().map(|x| x.0).collect() };
@@ -535,9 +539,7 @@ pub fn eval_root_pair<P: PType, A: Side<P>, B: Side<P>>(
                 (norm(i.prefix.raw()), i.value, i.right.map(|(p, v)| ob(p, B::val(v))))
             })
             .collect();
-        if raws != ro_diff && raws.iter().map(|k| norm(*k)).collect::<Vec<_>>() == ro_diff.iter().map(|k| norm(*k)).collect::<Vec<_>>() {
-            out.push(Viol::new("C13", "TrieViewMut::difference_mut", "prefix-differs-from-read-only-traversal", format!("roots {:x?} \\ {:x?}: difference_mut yields prefixes {:x?}, difference yields {:x?}", qa, qb, raws, ro_diff)));
-        }
+        cmp_mut_ro(&mut out, "TrieViewMut::difference_mut", qa, qb, &raws, &ro_diff);
         let got: Vec<(GK, u32, Option<Obs>)> = held.iter().map(|(k, v, r)| (*k, A::val(v), *r)).collect();
         if got != want {
             let keys = |v: &[(GK, u32, Option<Obs>)]| -> Vec<GK> { v.iter().map(|x| x.0).collect() };
@@ -577,9 +579,7 @@ pub fn eval_root_pair<P: PType, A: Side<P>, B: Side<P>>(
                 (norm(p.raw()), v)
             })
             .collect();
-        if raws != ro_cdiff && raws.iter().map(|k| norm(*k)).collect::<Vec<_>>() == ro_cdiff.iter().map(|k| norm(*k)).collect::<Vec<_>>() {
-            out.push(Viol::new("C13", "TrieViewMut::covering_difference_mut", "prefix-differs-from-read-only-traversal", format!("roots {:x?} \\\\ {:x?}: covering_difference_mut yields prefixes {:x?}, covering_difference yields {:x?}", qa, qb, raws, ro_cdiff)));
-        }
+        cmp_mut_ro(&mut out, "TrieViewMut::covering_difference_mut", qa, qb, &raws, &ro_cdiff);
         let got: Vec<(GK, u32)> = held.iter().map(|(k, v)| (*k, A::val(v))).collect();
         if got != want {
             let keys = |v: &[(GK, u32)]| -> Vec<GK> { v.iter().map(|x| x.0).collect() };
